@@ -1,5 +1,6 @@
 import HpxVerif.Model.Topo
 import HpxVerif.Lemmas.TopoGen
+import HpxVerif.Lemmas.EdgeInternal3
 import HpxVerif.Gen.Consts
 
 set_option autoImplicit false   -- an unknown identifier in a statement is an error, never a new variable
@@ -13,8 +14,12 @@ Tests by kernel evaluation on the model (labelled tests): for `delta_depth = 1..
 set of its descendants on the border of the `2^δ` grid, has `4·2^δ − 4` elements without duplicates, starts at the south
 corner, reaches the east corner after `2^δ − 1` steps, and `internal_edge_sorted` is its sorted permutation (the
 repaired behaviour of finding F9).
-Open statements: `internal_edge_set`, `internal_edge_walk`, `internal_edge_sorted_perm` for every `δ`;
-`external_edge_set` (depends on C04's completeness statement).
+**For every `δ ≥ 1`** (LUT build, second half of this file): `internal_edge_set` (the explicit ring: exactly the border
+descendants, `4·2^δ − 4` cells, no duplicates), `internal_edge_walk` (south corner first, east corner after `2^δ − 1`
+steps, cyclically consecutive cells adjacent), `internal_corners`, `internal_parts`, `internal_edge_sorted_perm` (the
+`k0..k3`/`lim` loop: never writes out of range, strictly increasing, a permutation of the internal edge),
+`internal_edge_top_spec` (the convenience functions on every valid cell with `depth + δ ≤ 29`).
+Open statement: `external_edge_set` (depends on C04's completeness statement).
 -/
 
 namespace Hpx.C14
@@ -78,5 +83,91 @@ theorem direction_tables_from_source :
 
 theorem seam_rules_from_source : ∀ b, b < 12 → ∀ w : MW, w ≠ .C →
     seamRule b w = TopoGen.decodeSeam ((TopoGen.lk2 Gen.seamRules b w.index).bind id) := TopoGen.seam_rules
+
+/-! ## internal edges, for EVERY delta_depth
+
+Vocabulary of `Lemmas/EdgeInternal*.lean`: `N = 2^dd`; the descendant of `hash` with in-cell coordinates `(x, y)` is
+`cellVal hash dd (x, y) = hash·4^dd + interleave x y`; `edgeCoords dd` is the ring of border coordinates in walk order
+(south corner, SE side, east corner, NE side, north corner, NW side backwards, west corner, SW side backwards),
+`edgeList` its image; `sortCoord`/`sortedList` the same ring in increasing z-order. -/
+
+section InternalEdges
+open Hpx Hpx.Topo Hpx.EdgeInternal
+
+theorem masks_spec_x (cfg : Cfg) (dd : Nat) (h1 : 1 ≤ dd) (h2 : dd ≤ 32) :
+    xMaskFn cfg dd = some (interleave (2 ^ dd - 1) 0) :=
+  Hpx.EdgeInternal.xMask_spec cfg dd h1 h2
+
+/-- **`internal_edge`, every `delta_depth`** (LUT build, `1 ≤ dd ≤ 29`, `hash·4^dd` fits in 64 bits): the result is the
+    explicit ring `edgeList`; it has `4N − 4` elements, no duplicates, and its members are exactly the border descendants -/
+theorem internal_edge_set (cfg : Cfg) (hb : cfg.bmi = false) (hash dd : Nat) (h1 : 1 ≤ dd) (hd : dd ≤ 29)
+    (hh : hash < 2 ^ (64 - 2 * dd)) :
+    ∃ l, internalEdge cfg hash dd = some l ∧ l = edgeList hash dd ∧ l.length = 4 * 2 ^ dd - 4 ∧ l.Nodup ∧
+      (∀ h', h' ∈ l ↔ ∃ x y, x < 2 ^ dd ∧ y < 2 ^ dd ∧ (x = 0 ∨ x = 2 ^ dd - 1 ∨ y = 0 ∨ y = 2 ^ dd - 1) ∧
+        h' = hash * 4 ^ dd + interleave x y) :=
+  Hpx.EdgeInternal.internalEdge_main cfg hb hash dd h1 hd hh
+
+/-- the walk: starts at the south corner, element `N−1` is the east corner, element `2(N−1)` the north corner, element
+    `3(N−1)` the west corner, and cyclically consecutive elements are adjacent cells (one step in `x` or in `y`) -/
+theorem internal_edge_walk (hash dd : Nat) (h1 : 1 ≤ dd) :
+    (edgeList hash dd)[0]? = some (hash * 4 ^ dd) ∧
+    (edgeList hash dd)[2 ^ dd - 1]? = some (hash * 4 ^ dd + interleave (2 ^ dd - 1) 0) ∧
+    (edgeList hash dd)[2 * (2 ^ dd - 1)]? = some (hash * 4 ^ dd + interleave (2 ^ dd - 1) (2 ^ dd - 1)) ∧
+    (edgeList hash dd)[3 * (2 ^ dd - 1)]? = some (hash * 4 ^ dd + interleave 0 (2 ^ dd - 1)) ∧
+    ∀ t, t < (edgeList hash dd).length → ∃ x y x' y',
+      (edgeList hash dd)[t]? = some (hash * 4 ^ dd + interleave x y) ∧
+      (edgeList hash dd)[(t + 1) % (edgeList hash dd).length]? = some (hash * 4 ^ dd + interleave x' y') ∧
+      onBorder dd x y ∧ onBorder dd x' y' ∧
+      ((x' = x ∧ (y' = y + 1 ∨ y' + 1 = y)) ∨ (y' = y ∧ (x' = x + 1 ∨ x' + 1 = x))) :=
+  Hpx.EdgeInternal.internalEdge_walk hash dd h1
+
+/-- the four corners: south `(0,0)`, east `(N−1,0)`, west `(0,N−1)`, north `(N−1,N−1)`; no other direction is accepted.
+    Needs `1 ≤ dd ≤ 32` only (no curve is consulted). -/
+theorem internal_corners (cfg : Cfg) (hash dd : Nat) (h1 : 1 ≤ dd) (hd : dd ≤ 32) (hh : hash < 2 ^ (64 - 2 * dd)) :
+    internalCorner cfg hash dd MW.S = some (hash * 4 ^ dd + interleave 0 0) ∧
+    internalCorner cfg hash dd MW.E = some (hash * 4 ^ dd + interleave (2 ^ dd - 1) 0) ∧
+    internalCorner cfg hash dd MW.W = some (hash * 4 ^ dd + interleave 0 (2 ^ dd - 1)) ∧
+    internalCorner cfg hash dd MW.N = some (hash * 4 ^ dd + interleave (2 ^ dd - 1) (2 ^ dd - 1)) ∧
+    (∀ dir, dir ≠ MW.S → dir ≠ MW.E → dir ≠ MW.W → dir ≠ MW.N → internalCorner cfg hash dd dir = none) :=
+  Hpx.EdgeInternal.internalCorner_spec cfg hash dd h1 hd hh
+
+/-- the four sides, each with its `N` cells including both corners: SE `(x,0)`, SW `(0,y)`, NE `(N−1,y)`, NW `(x,N−1)`,
+    each in increasing order of the running coordinate; no other direction is accepted -/
+theorem internal_parts (cfg : Cfg) (hb : cfg.bmi = false) (hash dd : Nat) (h1 : 1 ≤ dd) (hd : dd ≤ 29)
+    (hh : hash < 2 ^ (64 - 2 * dd)) :
+    internalEdgePart cfg hash dd MW.SE = some ((List.range (2 ^ dd)).map fun x => hash * 4 ^ dd + interleave x 0) ∧
+    internalEdgePart cfg hash dd MW.SW = some ((List.range (2 ^ dd)).map fun y => hash * 4 ^ dd + interleave 0 y) ∧
+    internalEdgePart cfg hash dd MW.NE =
+      some ((List.range (2 ^ dd)).map fun y => hash * 4 ^ dd + interleave (2 ^ dd - 1) y) ∧
+    internalEdgePart cfg hash dd MW.NW =
+      some ((List.range (2 ^ dd)).map fun x => hash * 4 ^ dd + interleave x (2 ^ dd - 1)) ∧
+    (∀ dir, dir ≠ MW.SE → dir ≠ MW.SW → dir ≠ MW.NE → dir ≠ MW.NW → internalEdgePart cfg hash dd dir = none) :=
+  Hpx.EdgeInternal.internalEdgePart_spec cfg hb hash dd h1 hd hh
+
+/-- a valid cell of depth `d` refined by `dd` levels with `d + dd ≤ 29` never overflows the 64-bit shift -/
+theorem valid_cell_fits (d dd hash : Nat) (hsum : d + dd ≤ 29) (hh : hash < 12 * 4 ^ d) : hash < 2 ^ (64 - 2 * dd) :=
+  Hpx.EdgeInternal.valid_cell_fits d dd hash hsum hh
+
+/-- **`internal_edge_sorted`, every `delta_depth`** (LUT build, `1 ≤ dd ≤ 29`, `hash·4^dd` fits in 64 bits): the function
+    returns (no out-of-range write) the explicit list `sortedList`, which has `4N − 4` elements, is strictly increasing,
+    is a permutation of the result `edgeList` of `internal_edge`, and hence consists exactly of the border descendants -/
+theorem internal_edge_sorted_perm (cfg : Cfg) (hbmi : cfg.bmi = false) (hash dd : Nat) (h1 : 1 ≤ dd) (hd : dd ≤ 29)
+    (hh : hash < 2 ^ (64 - 2 * dd)) :
+    ∃ s l, internalEdgeSorted cfg hash dd = some s ∧ internalEdge cfg hash dd = some l ∧
+      s = sortedList hash dd ∧ l = edgeList hash dd ∧
+      s.length = 4 * 2 ^ dd - 4 ∧ s.Pairwise (· < ·) ∧ s.Perm l ∧
+      (∀ h', h' ∈ s ↔ ∃ x y, x < 2 ^ dd ∧ y < 2 ^ dd ∧ (x = 0 ∨ x = 2 ^ dd - 1 ∨ y = 0 ∨ y = 2 ^ dd - 1) ∧
+        h' = hash * 4 ^ dd + interleave x y) :=
+  Hpx.EdgeInternal.internalEdgeSorted_perm cfg hbmi hash dd h1 hd hh
+
+/-- the public entry points on a valid cell: `depth + delta_depth ≤ 29`, `hash < 12·4^depth`, `delta_depth ≥ 1` -/
+theorem internal_edge_top_spec (cfg : Cfg) (hbmi : cfg.bmi = false) (d hash dd : Nat) (h1 : 1 ≤ dd) (hsum : d + dd ≤ 29)
+    (hh : hash < 12 * 4 ^ d) :
+    internalEdgeTop cfg 29 d hash dd = some (edgeList hash dd) ∧
+    internalEdgeSortedTop cfg 29 d hash dd = some (sortedList hash dd) :=
+  Hpx.EdgeInternal.internalEdgeTop_spec cfg hbmi d hash dd h1 hsum hh
+
+
+end InternalEdges
 
 end Hpx.C14
